@@ -564,6 +564,8 @@ func runC07(r *Run) {
 		})
 		r.Check(ok, "C07.4", "tmstate.StateMachine.recordProposedHeader(sets)", w.Pos(fn.Pos()), "the proposed header carries CurValSet, PrevFinNextValSet and the previous app state hash")
 	}
+	r.Rule("C07.6", "the engine gives its mirror the chain's validator set for the initial height (InitChain result or the finalization stored for InitialHeight-1), never the external genesis document")
+	engineInitialValidatorSet(r, "C07.6")
 	r.Expect("C07.4", 8, "proposal filter obligations")
 }
 
